@@ -8,11 +8,26 @@
 mod model;
 mod world;
 
-/// Every freed heap block is overwritten with 0xDD before it goes back to the system allocator:
-/// a use-after-free in the code under test then reads deterministic garbage (wild pointers,
-/// impossible enum tags) instead of the stale but intact object, in the exploration and in the
-/// isolated re-execution alike.
+/// Every freed heap block is overwritten with 0xDD and parked in a per-thread FIFO quarantine
+/// (the last 1024 small blocks) before it really goes back to the system allocator: a
+/// use-after-free in the code under test then reads deterministic garbage (wild pointers,
+/// impossible enum tags) instead of the stale but intact - or already recycled - object, in the
+/// exploration and in the isolated re-execution alike.
 struct PoisonAlloc;
+
+static NOQUAR: AtomicBool = AtomicBool::new(false);
+const QN: usize = 1024;
+const QMAX: usize = 4096;
+
+struct Quarantine {
+    slots: [(*mut u8, usize, usize); QN],
+    next: usize,
+}
+
+thread_local! {
+    static FREED: std::cell::UnsafeCell<Quarantine> =
+        const { std::cell::UnsafeCell::new(Quarantine { slots: [(std::ptr::null_mut(), 0, 0); QN], next: 0 }) };
+}
 
 unsafe impl std::alloc::GlobalAlloc for PoisonAlloc {
     unsafe fn alloc(&self, l: std::alloc::Layout) -> *mut u8 {
@@ -30,7 +45,25 @@ unsafe impl std::alloc::GlobalAlloc for PoisonAlloc {
     unsafe fn dealloc(&self, p: *mut u8, l: std::alloc::Layout) {
         unsafe {
             std::ptr::write_bytes(p, 0xDD, l.size());
-            std::alloc::System.dealloc(p, l)
+            if l.size() > QMAX || NOQUAR.load(Ordering::Relaxed) {
+                return std::alloc::System.dealloc(p, l);
+            }
+            // the slot array lives in static TLS: no allocation, no destructor
+            let evicted = FREED.try_with(|q| {
+                let q = &mut *q.get();
+                let old = q.slots[q.next];
+                q.slots[q.next] = (p, l.size(), l.align());
+                q.next = (q.next + 1) % QN;
+                old
+            });
+            match evicted {
+                Ok((op, size, align)) => {
+                    if !op.is_null() {
+                        std::alloc::System.dealloc(op, std::alloc::Layout::from_size_align_unchecked(size, align));
+                    }
+                }
+                Err(_) => std::alloc::System.dealloc(p, l),
+            }
         }
     }
 }
@@ -81,6 +114,19 @@ fn parse_driver(s: &str) -> DriverType {
 }
 
 fn run_one(sc: &Scenario, seq: &[Step], cfg: &Config) -> ExecResult {
+    for _ in 0..8 {
+        let r = run_once(sc, seq, cfg);
+        if !r.disturbed {
+            return r;
+        }
+        DISTURBED.fetch_add(1, Ordering::Relaxed);
+    }
+    run_once(sc, seq, cfg)
+}
+
+static DISTURBED: AtomicU64 = AtomicU64::new(0);
+
+fn run_once(sc: &Scenario, seq: &[Step], cfg: &Config) -> ExecResult {
     match vcore::catch(|| execute(sc, seq, cfg)) {
         Ok(r) => r,
         Err(msg) => {
@@ -88,6 +134,7 @@ fn run_one(sc: &Scenario, seq: &[Step], cfg: &Config) -> ExecResult {
             let class: String = msg.chars().take_while(|c| !c.is_ascii_digit() && *c != '\'' && *c != '"').take(60).collect();
             let class = class.trim().replace(' ', "-");
             ExecResult {
+                disturbed: false,
                 vios: vec![world::Vio {
                     key: format!("{}:{}:panic:{}", driver_name(cfg.driver), sc.name, class),
                     what: format!(
@@ -190,8 +237,8 @@ fn plan(tier: Tier) -> Plan {
         },
         depth_poll,
         depth_iour,
-        grace: Duration::from_millis(envnum("C05_GRACE_MS").map(|x| x as u64).unwrap_or(tier.pick(2, 10))),
-        wall_cap: Duration::from_secs(tier.pick(38, 560)),
+        grace: Duration::from_millis(envnum("C05_GRACE_MS").map(|x| x as u64).unwrap_or(tier.pick(2, 6))),
+        wall_cap: Duration::from_secs(tier.pick(34, 560)),
     }
 }
 
@@ -363,6 +410,9 @@ fn main() {
         vcore::machinery_error(&format!("e_c05 serves C05 only, not {}", args.property));
     }
     let tier = args.tier;
+    if std::env::var_os("C05_NOQUAR").is_some() {
+        NOQUAR.store(true, Ordering::Relaxed);
+    }
     let pl = plan(tier);
     let grace = pl.grace;
     // the whole process is a client of its own peers: a dead peer must not kill it
@@ -372,25 +422,6 @@ fn main() {
             no_core_dumps();
         }
         replay(p, grace);
-    }
-    if let Ok(n) = std::env::var("C05_BENCH") {
-        let n: usize = n.parse().unwrap();
-        for d in drivers() {
-            for threads in [1usize, 4, 16] {
-                let t0 = Instant::now();
-                std::thread::scope(|s| {
-                    for _ in 0..threads {
-                        s.spawn(|| {
-                            for _ in 0..n {
-                                world::bench_runtime(d);
-                            }
-                        });
-                    }
-                });
-                println!("{} threads={threads}: {:?} per runtime (wall/total)", driver_name(d), t0.elapsed() / (n * threads) as u32);
-            }
-        }
-        return;
     }
     if std::env::var_os("C05_CHILD").is_none() && std::env::var_os("C05_COUNT").is_none() {
         supervise(tier);
@@ -460,9 +491,19 @@ fn main() {
     let capped = AtomicBool::new(false);
     let done_depth_incomplete = AtomicU64::new(u64::MAX);
     let flaky = std::sync::Mutex::new(Vec::<String>::new());
-    let nthreads = (vcore::threads() * 3).min(SLOTS);
+    let confirmed = std::sync::Mutex::new(std::collections::HashSet::<String>::new());
+    // executions sleep (grace period, timeout route) far longer than they compute: oversubscribe
+    let nthreads = (vcore::threads() * tier.pick(3, 6)).min(SLOTS);
     let next_slot = AtomicU64::new(0);
-    vcore::par_for_each_n(&items, nthreads, |idx, it| {
+    // ring setup/teardown is serialised inside the kernel and degrades with the number of threads
+    // doing it at once: io_uring executions get a small pool of their own (larger in the thorough
+    // tier, whose executions mostly sleep through the longer grace period)
+    let iour_threads = std::env::var("C05_IOUR_THREADS").ok().and_then(|s| s.parse().ok()).unwrap_or(tier.pick(8usize, 24));
+    let idx_iour: Vec<usize> = (0..items.len()).filter(|&i| items[i].driver == DriverType::IoUring).collect();
+    let idx_poll: Vec<usize> = (0..items.len()).filter(|&i| items[i].driver != DriverType::IoUring).collect();
+    let dump = std::env::var_os("C05_DUMP").map(|_| std::sync::Mutex::new(Vec::<String>::new()));
+    let work = |idx: usize| {
+        let it = &items[idx];
         thread_local! { static SLOT: std::cell::Cell<usize> = const { std::cell::Cell::new(usize::MAX) }; }
         if SLOT.get() == usize::MAX {
             SLOT.set(next_slot.fetch_add(1, Ordering::Relaxed) as usize);
@@ -479,6 +520,16 @@ fn main() {
         let res = run_one(it.sc, &it.seq, &cfg);
         report.add_execution(res.transitions);
         report.outcome(res.outcome.clone());
+        if let Some(d) = &dump {
+            d.lock().unwrap().push(format!(
+                "{} {} {:?} => {} t={}",
+                driver_name(it.driver),
+                it.sc.name,
+                it.seq.iter().map(|s| s.name()).collect::<Vec<_>>(),
+                res.outcome,
+                res.transitions
+            ));
+        }
         for r in &res.reached {
             report.count(r, 1);
         }
@@ -487,10 +538,17 @@ fn main() {
                    "steps": it.seq.iter().map(|s| s.name()).collect::<Vec<_>>(), "outcome": res.outcome})
         });
         if !res.vios.is_empty() {
-            // every violation must reproduce twice from its step list before it is reported
-            let again: Vec<ExecResult> = (0..2).map(|_| run_one(it.sc, &it.seq, &cfg)).collect();
+            // every violation class must reproduce twice from its step list before it is reported
+            // (further occurrences of an already confirmed class are only counted)
+            let all_known = {
+                let c = confirmed.lock().unwrap();
+                res.vios.iter().all(|v| c.contains(&v.key))
+            };
+            let again: Vec<ExecResult> =
+                if all_known { vec![] } else { (0..2).map(|_| run_one(it.sc, &it.seq, &cfg)).collect() };
             for v in res.vios {
                 if again.iter().all(|r| r.vios.iter().any(|x| x.key == v.key)) {
+                    confirmed.lock().unwrap().insert(v.key.clone());
                     report.violation(Violation {
                         key: v.key,
                         what: v.what,
@@ -504,7 +562,17 @@ fn main() {
         if let Some(s) = &slots {
             s.at(SLOT.get()).store(0, Ordering::SeqCst);
         }
+    };
+    std::thread::scope(|sc| {
+        sc.spawn(|| vcore::par_for_each_n(&idx_iour, iour_threads, |_, &i| work(i)));
+        vcore::par_for_each_n(&idx_poll, nthreads, |_, &i| work(i));
     });
+    if let (Some(d), Some(p)) = (&dump, std::env::var_os("C05_DUMP")) {
+        let mut v = d.lock().unwrap().clone();
+        v.sort();
+        let _ = std::fs::write(p, v.join("\n"));
+    }
+    report.extra("executions_repeated_because_the_scheduler_disturbed_the_timeout_step", json!(DISTURBED.load(Ordering::Relaxed)));
     if capped.load(Ordering::Relaxed) {
         report.cap_hit(&format!(
             "wall cap {} s hit: all sequences shorter than {} steps were executed, longer ones only partly",
